@@ -30,6 +30,15 @@ func (f *hField) NumPlainTextBytes() uint64                        { return 0 }
 
 type hComp struct{ hField }
 
+// hShapeField: a geo-shape field - an ordinary indexed field that also carries its encoded shape
+type hShapeField struct {
+	*hField
+	shape []byte
+}
+
+func (f *hShapeField) GeoShape() (index.GeoJSON, error) { return nil, nil }
+func (f *hShapeField) EncodedShape() []byte             { return f.shape }
+
 func (f *hComp) Compose(field string, length int, freq index.TokenFrequencies) {}
 
 type hSynField struct {
@@ -119,6 +128,9 @@ func materializeDoc(d *DocSpec) index.Document {
 		switch f.Kind {
 		case "comp":
 			opts := index.IndexField | index.IncludeTermVectors
+			if f.TV == "0" {
+				opts = index.IndexField
+			}
 			if f.DV {
 				opts |= index.DocValues
 			}
@@ -136,12 +148,24 @@ func materializeDoc(d *DocSpec) index.Document {
 					opts |= index.IncludeTermVectors
 				}
 			}
+			// the term-vector option is the caller's statement, the locations are what the analysis
+			// produced: zapx stores the locations it is given whatever the option says
+			if f.TV == "0" {
+				opts &^= index.IncludeTermVectors
+			} else if f.TV == "1" {
+				opts |= index.IncludeTermVectors
+			}
 			var ap []uint64
 			if len(f.AP) > 0 {
 				ap = append([]uint64(nil), f.AP...)
 			}
-			base.fields = append(base.fields, &hField{name: f.Name, typ: f.Typ, opts: opts, alen: f.Len,
-				val: append([]byte{}, f.Val...), ap: ap, tfs: mkTFs(f.Toks)})
+			hf := &hField{name: f.Name, typ: f.Typ, opts: opts, alen: f.Len,
+				val: append([]byte{}, f.Val...), ap: ap, tfs: mkTFs(f.Toks)}
+			if f.Shape != nil {
+				base.fields = append(base.fields, &hShapeField{hField: hf, shape: append([]byte{}, f.Shape...)})
+			} else {
+				base.fields = append(base.fields, hf)
+			}
 		case "syn":
 			base.fields = append(base.fields, &hSynField{hField: hField{name: f.Name}, defs: f.Defs})
 		case "vec":
